@@ -141,13 +141,13 @@ PROPS = {
     ],
   },
   'C06': {
-    'rule': 'cases = (N in 1..12 participants, R in 1..6 consecutive rounds on one barrier, generated yields before each arrival, main thread participating or not, W in 1..8, schedule bytes + tail); '
+    'rule': 'cases = (N in 1..12 participants, and in one case of eight N at the boundaries of the powers of two from 15 to 4097 (1023..1027, 2047..2050, ...), R in 1..6 (1..3 for large N) consecutive rounds on one barrier, generated yields before each arrival, main thread participating or not, W in 1..8, schedule bytes + tail); '
             'non-trivial = the last arriver had to wait for a sleeper that had announced itself but not yet pushed itself on the sleep stack OR a participant entered round k+1 before all of round k had returned; distinct = hash of (program, schedule, seed)',
     'assumptions': COMMON_ASSUME + ['exactly N participants use the barrier (documented precondition)'],
     'stages': [
       {'kind': 'replays', 'name': 'replay', 'variant': 'v0'},
-      {'kind': 'pbt', 'name': 'barrier-v0', 'variant': 'v0', 'prop': 6, 'cases': (1200, 20000), 'prog_max': 96, 'sched_max': 320},
-      {'kind': 'pbt', 'name': 'barrier-v2', 'variant': 'v2', 'prop': 6, 'cases': (400, 10000), 'prog_max': 96, 'sched_max': 384},
+      {'kind': 'pbt', 'name': 'barrier-v0', 'variant': 'v0', 'prop': 6, 'cases': (800, 20000), 'prog_max': 96, 'sched_max': 320},
+      {'kind': 'pbt', 'name': 'barrier-v2', 'variant': 'v2', 'prop': 6, 'cases': (250, 10000), 'prog_max': 96, 'sched_max': 384},
     ],
   },
   'C07': {
